@@ -175,7 +175,7 @@ def native_replay(t0, H, method, omega, last_idx, seed):
 
 def prove(run):
     from renormalizer.mps import Mpo
-    shapes = [("spinqn", 3), ("holstein", 3)] if run.tier == "quick" else [("spinqn", 3), ("spinqn", 4), ("holstein", 3), ("spin2qn", 3), ("spin", 3), ("spinqn", 2)]
+    shapes = [("spinqn", 3), ("holstein", 3), ("spinqn-flux", 3)] if run.tier == "quick" else [("spinqn", 3), ("spinqn", 4), ("holstein", 3), ("spin2qn", 3), ("spin", 3), ("spinqn", 2), ("spinqn-flux", 3), ("holstein-flux", 3)]
     ncase = ncalls = 0
     for name, n in shapes:
         rng = np.random.default_rng([run.seed, n, 551, sum(map(ord, name))])
